@@ -26,11 +26,34 @@ RESERVED = {"AddDecorator", "CircularDeps", "Container", "Get", "GetInContext", 
             "OverrideParam", "OverrideService", "Root"}
 
 
+V_ = r"^compiler\.StepValidateInput: "
+MULTI_DIAG = {  # injected defect -> its diagnostic (quoted strings normalised to "_")
+    "grammar:pname": V_ + r'parameters: "_": invalid name$', "grammar:sname": V_ + r'services: "_": invalid name$', "grammar:pkg": V_ + r'meta: pkg: invalid "_"',
+    "grammar:alias": V_ + r'meta: imports: invalid alias "_"', "grammar:import": V_ + r'meta: imports: invalid import "_"', "grammar:fn": V_ + r'meta: functions: invalid function "_"',
+    "grammar:gofn": V_ + r'meta: functions: invalid go function "_"', "grammar:nonprim-param": V_ + r'parameters: "_": unsupported type ',
+    "grammar:dec-tag": V_ + r'decorators: \d+ "_": tag: invalid "_"', "grammar:dec-method": V_ + r'decorators: \d+ "_": method: invalid "_"',
+    "grammar:getter": V_ + r'services: "_": getter: invalid "_"', "grammar:ctor": V_ + r'services: "_": constructor: invalid "_"', "grammar:type": V_ + r'services: "_": type: invalid "_"',
+    "grammar:value": V_ + r'services: "_": value: invalid "_"', "grammar:tag": V_ + r'services: "_": tags: \d+: invalid "_"', "grammar:field": V_ + r'services: "_": fields: "_": invalid "_"',
+    "grammar:call": V_ + r'services: "_": calls: \d+: method: invalid "_"', "grammar:nonprim-arg": V_ + r'services: "_": (fields: "_"|arguments: arg \d+|calls: .*): unsupported type ',
+    "grammar:ctor+value": V_ + r'services: "_": cannot define constructor and value together', "grammar:missing-ctor": V_ + r'services: "_": missing constructor or value or type',
+    "grammar:args-noctor": V_ + r'services: "_": arguments are not empty, but constructor is missing', "grammar:must-prefix": V_ + r'services: "_": getter: prefix "_" is not allowed',
+    "grammar:incontext": V_ + r'services: "_": getter: suffix "_" is not allowed', "grammar:reserved": V_ + r'services: "_": getter: "_" is reserved',
+    "grammar:dup-tag": V_ + r'services: "_": tags: duplicate "_"',
+}
+
+
 def lang_ok(pos, x):
     if not re.fullmatch(LANG[pos], x, re.S):
         return False
     if pos == "getter":
         return x not in RESERVED and not x.startswith("Must") and not x.endswith("InContext")
+    # names the generated file needs for itself (D16) and the current package as an alias target
+    if pos == "ctype":
+        return x != "rootGontainer"
+    if pos == "cctor":
+        return x not in ("init", "main")
+    if pos == "import":
+        return x.strip('"') != "."
     return True
 
 
@@ -208,7 +231,8 @@ def run(tier, seed, replay):
         specs.append(sp)
         plan.append(("scalar-values", None))
     # every VALID import path form, actually used: a configuration made only of grammatical pieces is accepted end to end
-    vimps = [c for c in allstr + mutated if c and lang_ok("import", c) and c.strip('"') != "."][:120] + ["\"example.com/lib\"", "\"gv.test/fix/x.y\"", "example.com/a-b_c.d/e"]
+    vimps = [c for c in allstr + mutated if c and lang_ok("import", c) and c.strip('"') != "."]
+    vimps = vimps[:110] + [c for c in vimps[110:] if c in mutated][:40] + ["\"example.com/lib\"", "\"gv.test/fix/x.y\"", "example.com/a-b_c.d/e"]
     vcfg = {"meta": {"imports": {"k%d" % i: c for i, c in enumerate(vimps)}},
             "services": {"s%d" % i: {"constructor": "k%d.New" % i, "type": "*k%d.T" % i, "getter": "GetS%d" % i} for i in range(len(vimps))}}
     sp = common.mk_spec(len(specs), [vcfg])
@@ -348,6 +372,20 @@ def run(tier, seed, replay):
         if pos is None:
             errs = ob.get("errors") or []
             nontrivial.add(json.dumps(errs)[:300])
+            # several simultaneous defects: every injected grammar defect has its own diagnostic in this one run (none masks another)
+            norm = [re.sub(r'"[^"]*"', '"_"', e) for e in errs]
+            labels = [w for w in sp.get("what") or [] if w.startswith("grammar:") and w != "grammar:must-no-getter"]
+            for lab in labels:
+                evals += 1
+                rx = MULTI_DIAG.get(lab)
+                dist["multi_labels_checked"] = dist.get("multi_labels_checked", 0) + 1
+                if rx is None:
+                    out.broke("harness: C11 multi family has a label without an expected diagnostic", lab)
+                elif not any(re.search(rx, e) for e in norm):
+                    out.violation("not-all-reported:" + lab, "the injected defect %s has no diagnostic of its own among %d reported (labels of this configuration: %s)" % (lab, len(errs), sp.get("what")),
+                                  common.slim(sp, ob))
+            if labels and (ob.get("exit") == 0 or any(not e.startswith("compiler.StepValidateInput: ") for e in errs)):
+                out.violation("multi-defect-verdict", "a configuration with grammar defects %s: exit %s, diagnostics from %s" % (labels, ob.get("exit"), sorted({e.split(":")[0] for e in errs})), common.slim(sp, ob))
             continue
         errs = ob.get("errors") or []
         errset = set(errs)
@@ -366,9 +404,19 @@ def run(tier, seed, replay):
                 if pos in ("getter", "constructor", "type", "value", "call", "field", "tag"):
                     pre = "compiler.StepValidateInput: services: \"%s\": " % key
                     bad = [e for e in errs if e.startswith(pre)]
-                    if bad:
-                        out.violation("spurious:%s:%r" % (pos, cand), "position %s: %r is in the documented language but is reported: %s" % (pos, cand, bad[:2]),
-                                      dict(common.slim(sp), candidate=cand))
+                else:
+                    # the diagnostic an INVALID candidate would get, and anything filed under the candidate's own key
+                    bad = [e for e in errs if e in set(expected_diag(pos, key, cand))]
+                    if pos in ("service-name", "todo-service-name"):
+                        bad += [e for e in errs if e.startswith("compiler.StepValidateInput: services: %s: " % gq(cand))]
+                    if pos == "param-name":
+                        bad += [e for e in errs if e.startswith("compiler.StepValidateInput: parameters: %s: " % gq(cand))]
+                    if pos in ("pkg", "ctype", "cctor") and ob.get("exit") != 0 and any(e.startswith("compiler.StepValidateInput") for e in errs):
+                        bad += [e for e in errs if e.startswith("compiler.StepValidateInput")]
+                if bad:
+                    out.violation("spurious:%s:%r" % (pos, cand), "position %s: %r is in the documented language but is reported: %s" % (pos, cand, bad[:2]),
+                                  dict(common.slim(sp), candidate=cand))
+                dist["valid_checked"] = dist.get("valid_checked", 0) + 1
             else:
                 nontrivial.add("%s|%s" % (pos, cand))
         if len(samples) < 6 and pos in ("value", "type", "import", "dec-tag", "getter", "constructor"):
